@@ -5,8 +5,10 @@ escape, dot) denotes a set of representatives. Regexes are compiled to NFAs (Tho
 deterministic by subset construction and compared by product reachability. No regex engine runs
 on program input; this decides language equality of two patterns over the abstraction."""
 
-REPS = ["*", "/", "\n", "\r", '"', "\\", "~", "n", "t", "r", "0", "9", "a", "Z", "_", "-", " ", "\t", "#", ".", "é", "e", "E", "+", "(", "=", "'"]
-WS = {" ", "\t", "\n", "\r"}
+REPS = ["*", "/", "\n", "\r", '"', "\\", "~", "n", "t", "r", "0", "9", "a", "Z", "_", "-", " ", "\t", "#", ".", "é", "e", "E", "+", "(", "=", "'",
+        "\x0c",        # the ASCII white space other than space/tab/CR/LF (form feed, vertical tab)
+        "\u00a0"]      # white space outside ASCII (NEL, NBSP, U+2028, U+3000 …): `\s` is Unicode White_Space in the lexer's regex dialect
+WS = {" ", "\t", "\n", "\r", "\x0c", "\u00a0"}
 DIGITS = {"0", "9"}
 LOWER = {"n", "t", "r", "a", "e"}
 UPPER = {"Z", "E"}
